@@ -96,8 +96,8 @@ class get_tokens_str:
     # the for-else fallback (last yield in source order) yields exactly (Error, one character)
     yield_site_asserts = {'last': ['item[0] is tokens.Error', 'len(item[1]) == 1']}
     loops = {
-        '0': {'inv': ['0 <= iterable.K', 'iterable.K <= len(text)', 'ACC == text[:iterable.K]',
-                      'iterable.N == len(text)']},
+        '0': {'inv': ['0 <= IT0.K', 'IT0.K <= len(text)', 'ACC == text[:IT0.K]',
+                      'IT0.N == len(text)']},
         '0.0': {'inv': []},
     }
     ensures = ['ACC == old(text)']
